@@ -52,12 +52,13 @@ def St.setV (s : St) (i : Nat) (f : V → V) : St := { s with vars := s.vars.mod
 
 def St.setE (s : St) (i : Nat) (e : E) : St := { s with eqs := s.eqs.set i e }
 
-/-- `variableOnLhsRhs` for one side -/
-def onSide (s : St) (e : E) (v : Nat) : Side → Bool
+/-- `variableOnLhsRhs` for one side: the variable that stands alone there belongs to the class (fix 242ccce: through
+    `areEquivalentVariables`, not through the name of the class's current representative) -/
+def onSide (s : St) (_e : E) (v : Nat) : Side → Bool
   | none => false
   | some (w, isDiff) =>
-    if isDiff then w = v && (s.v v).rep = e.comp
-    else (s.v v).ty ≠ .state && w = v && (s.v v).rep = e.comp
+    if isDiff then w = v
+    else (s.v v).ty ≠ .state && w = v
 
 def onLhsOrRhs (s : St) (e : E) (v : Nat) : Bool := onSide s e v e.lhs || onSide s e v e.rhs
 
